@@ -140,6 +140,9 @@ class C17Episode(Episode):
             ws.append(self.world.make_watcher(wc))
         self.world.build(watchers=ws)
         self.world.kernel.on_spawn = self.on_spawn
+        self.world.hook_observer = self.on_hook
+        self.hooked = set(wc['name'] for wc in self.cfg['watchers']
+                          if 'after_spawn' in (wc.get('hooks') or {}))
         self.file_channels = dict(
             (wc.get('marker', wc['name']), set(wc.get('stream_conf') or ()))
             for wc in self.cfg['watchers'])
@@ -196,10 +199,31 @@ class C17Episode(Episode):
         if plan.get('exit') is not None:
             sim.after(t + plan['exit'], lambda pid=p.pid: self.do_exit(pid),
                       'write')
+        if plan.get('boot'):
+            # what the worker prints while it comes up: before the watcher's
+            # after_spawn hook (a health check) has looked at it
+            st['boot'] = list(plan['boot'])
+            wname = [wc['name'] for wc in self.cfg['watchers']
+                     if wc.get('marker', wc['name']) == p.marker]
+            if not wname or wname[0] not in self.hooked:
+                sim.after(0.0, lambda pid=p.pid: self.do_boot(pid), 'write')
         if plan.get('helper'):
             hp = plan['helper']
             sim.after(hp['at'], lambda pid=p.pid: self.start_helper(
                 pid, hp['ch'], hp['life']), 'write')
+
+    def do_boot(self, pid):
+        st = self.writers.get(pid)
+        if st is None:
+            return
+        for ch, size in st.pop('boot', []):
+            self.do_write(pid, ch, size)
+
+    def on_hook(self, wname, hook_name, out, kwargs):
+        if hook_name == 'after_spawn' and kwargs.get('pid') in self.writers:
+            self.do_boot(kwargs['pid'])
+            if out != 'true':
+                self.fired['worker_rejected_by_after_spawn'] += 1
 
     def pipe_of(self, p, ch):
         return p.stdout_w if ch == 'stdout' else p.stderr_w
@@ -700,6 +724,17 @@ class C17(Prop):
                 cfg['flush_read_bound'] = 3000
             wc['channels'] = rng.choice([['stdout', 'stderr'],
                                          ['stdout', 'stderr'], ['stdout']])
+        if rng.random() < 0.12:
+            # a health check (after_spawn hook) that rejects some workers
+            # after they have printed why they cannot come up
+            for wc in cfg['watchers']:
+                wc['hooks'] = {'after_spawn': {
+                    'script': [rng.choice(['true', 'true', 'false', 'raise'])
+                               for _ in range(8)], 'ignore': False}}
+                for pl in wc['plans']:
+                    pl['boot'] = [[rng.choice(wc['channels']),
+                                   rng.choice([20, 100, 1025, 5000])]
+                                  for _ in range(rng.choice([1, 2]))]
         nw = len(cfg['watchers'])
         ops = []
         n = rng.choice([0, 1, 2, 4]) if tier == 'quick' else \
